@@ -1175,6 +1175,20 @@ where
     }
 }
 
+/// Values whose encoding is longer than any internal block or chunk size one could think of (64 KiB, 128 KiB) and
+/// not a multiple of it.
+pub fn large_values() -> Vec<(&'static str, Box<dyn ErasedVal>)> {
+    let mut out: Vec<(&'static str, Box<dyn ErasedVal>)> = Vec::new();
+    for n in [65537usize, 131072, 131073, 300_017] {
+        let b: Vec<u8> = (0..n).map(|i| (i % 251) as u8).collect();
+        out.push(("ByteVec (large)", Box::new(V { v: ByteVec::from(b.clone()), arr: None })));
+        out.push(("String (large)", Box::new(V { v: b.iter().map(|x| (b'a' + x % 26) as char).collect::<String>(), arr: None })));
+        out.push(("Vec<u16> (large)", Box::new(V { v: b.iter().map(|x| *x as u16 * 3).collect::<Vec<u16>>(), arr: None })));
+        out.push(("(u8, ByteVec, u8) (large)", Box::new(V { v: (7u8, ByteVec::from(b), 9u8), arr: None })));
+    }
+    out
+}
+
 /// Decode `T` from `bytes` starting at `pos`.
 pub fn decode_as<T: for<'b> Decode<'b, ()> + ToModel>(bytes: &[u8], pos: usize) -> DecOut {
     let mut d = crate::ops::new_dec(bytes, pos);
